@@ -85,7 +85,7 @@ func init() {
 
 func init() {
 	register(PropSpec{ID: "C04", Harnesses: []HarnessSpec{
-		{Name: "history", Pkg: "state/tstate", Files: []string{"tstate/c04_view.go"}, Entry: "VerifC04History", Reach: []string{"rollback", "published"},
+		{Name: "history", Pkg: "state/tstate", Files: []string{"tstate/c04_view.go"}, Entry: "VerifC04History", Reach: []string{"rollback", "published", "empty-value"},
 			Outside: []string{"more than maxOps operations on the view under test", "more than `keys` keys", "values longer than one chunk (C40)", "parent read errors other than not-found"}},
 	}})
 }
